@@ -21,7 +21,7 @@ for r in rows:
     out.append('| %s | %s | %s | %s |' % r)
 caught = sum(1 for r in rows if r[3].startswith('CAUGHT'))
 out.append('')
-out.append(f'{caught} of {len(rows)} seeded changes are caught by a quick tier: that of the property they were written against, or of the check named in the row where another property's check is the one that sees it.')
+out.append(f'{caught} of {len(rows)} seeded changes are caught by a quick tier: that of the property they were written against, or of the check named in the row where the check of another property is the one that sees it.')
 p = f'{V}/DESIGN.md'
 s = open(p).read()
 b, e = '<!-- SEEDED-TABLE-BEGIN -->', '<!-- SEEDED-TABLE-END -->'
